@@ -109,6 +109,20 @@ func (fc *FnCtx) callByContract(fr *Frame, st *State, reach string, con *Contrac
 		fc.assumption("trusted contract (assumed, not verified): " + con.Header)
 	}
 	vars := bindParams(con, callee, args)
+	// a closure under contract: its captured variables can be named in the contract
+	if binds := fc.curBinds; binds != nil && callee != nil {
+		for i, fv := range callee.FreeVars {
+			if i < len(binds) {
+				v := binds[i]
+				// captured variables are cells (pointers to the variable): name the value
+				if v.K == KAddr && (v.A.Kind == ACell || capturedByRef(callee, i)) {
+					v = fc.load(st, v.A)
+				}
+				vars[fv.Name()] = v
+			}
+		}
+	}
+	fc.curBinds = nil
 	sig := callee.Signature
 	// pointer arguments non-nil
 	for i, a := range args {
@@ -450,6 +464,12 @@ func (fc *FnCtx) applyModifies(st, pre *State, con *Contract, vars map[string]Va
 	}
 	targets, deferred := fc.evalModifiesD(pre, con, con.Modifies, vars, true)
 	fc.havocTargets(st, targets)
+	// the built-in send-attempt counter is not part of user frames: a callee that
+	// does not name it may have sent on any channel
+	if !mentionsSendTries(con) && len(con.Modifies) > 0 {
+		st.heap["GH$sendtries"] = fc.sc.fresh("gh_sendtries", "(Array Int Int)")
+		fc.sorts["GH$sendtries"] = "(Array Int Int)"
+	}
 	// callee allocations: allocation only grows
 	if con.allocates() {
 		old := fc.alloc(st)
@@ -459,6 +479,15 @@ func (fc *FnCtx) applyModifies(st, pre *State, con *Contract, vars map[string]Va
 		fc.noteWrite("Alloc")
 	}
 	return deferred
+}
+
+func mentionsSendTries(con *Contract) bool {
+	for _, m := range con.Modifies {
+		if strings.Contains(m, "sendtries(") {
+			return true
+		}
+	}
+	return false
 }
 
 func (fc *FnCtx) havocTargets(st *State, targets []modTarget) {
@@ -589,6 +618,27 @@ func (fc *FnCtx) invEnv(fr *Frame, st *State, phiVals map[*ssa.Phi]Val, phis []*
 	}
 	pkg := fr.fn.Pkg.Pkg
 	return fc.specEnv(st, fc.oldSt, vars, pkg, fr, what)
+}
+
+// capturedByRef: the i-th free variable of closure fn is the address of a
+// variable of the enclosing function (go/ssa captures reassigned or addressed
+// variables by reference).
+func capturedByRef(fn *ssa.Function, i int) bool {
+	p := fn.Parent()
+	if p == nil {
+		return false
+	}
+	for _, b := range p.Blocks {
+		for _, ins := range b.Instrs {
+			mc, ok := ins.(*ssa.MakeClosure)
+			if !ok || mc.Fn != ssa.Value(fn) || i >= len(mc.Bindings) {
+				continue
+			}
+			_, isAlloc := mc.Bindings[i].(*ssa.Alloc)
+			return isAlloc
+		}
+	}
+	return false
 }
 
 // rangeIndexName: the source name of the index variable of a range loop whose
@@ -894,10 +944,13 @@ func (fc *FnCtx) verify() {
 	}
 	vars := bindParams(con, fn, args)
 	// closures verified standalone: captured variables are arbitrary and can be named in the contract
-	for _, fv := range fn.FreeVars {
+	for i, fv := range fn.FreeVars {
 		v := fc.value(fr, st, fv)
 		if v.K == KAddr && v.A.Kind == ACell {
 			vars[fv.Name()] = st.cells[v.A.Cell]
+		} else if v.K == KAddr && capturedByRef(fn, i) {
+			// the closure holds the address of the variable: the name denotes its value
+			vars[fv.Name()] = fc.load(st, v.A)
 		} else {
 			vars[fv.Name()] = v
 		}
@@ -1058,6 +1111,9 @@ func (fc *FnCtx) frameCheck(fr *Frame, st, pre *State, con *Contract, vars map[s
 	}
 	sort.Strings(names)
 	for _, name := range names {
+		if name == "GH$sendtries" && !mentionsSendTries(con) {
+			continue
+		}
 		if fc.volatileNames[name] {
 			fc.assumption("A-MON-FRAME: the frame condition does not cover " + name + " (guarded by a monitor this function acquires: other threads may write it; its writes are governed by the monitor's invariant/history)")
 			continue
